@@ -717,7 +717,14 @@ def run_lifecycle(c):  # noqa: C901, PLR0912, PLR0915
             if "R4" in rules:
                 choices[rng.choice(sn)] = grids[cn[0]] if cn else grids[sn[0]]
             if "R6" in rules:
-                if rng.random() < 0.5 or not disc_states:
+                u6 = rng.random()
+                if u6 >= 0.67:
+                    # a stochastic transition ON a continuous state whose signature lists only discrete variables or the period
+                    w = cont_states[0]
+                    dep = rng.choice(([disc_states[0]] if disc_states else []) + ([disc_choices[0]] if disc_choices else []) + ["_period"])
+                    exec(f"@lcm.mark.stochastic\ndef next_{w}({dep}):\n    pass\n", ns)  # noqa: S102
+                    funcs[f"next_{w}"] = ns[f"next_{w}"]
+                elif u6 < 0.34 or not disc_states:
                     w = cont_states[0]
                     exec(f"@lcm.mark.stochastic\ndef next_{w}({w}):\n    pass\n", ns)  # noqa: S102
                     funcs[f"next_{w}"] = ns[f"next_{w}"]
